@@ -143,40 +143,45 @@ macro_rules! assert_leaf_ok {
 }
 
 #[derive(Clone, Copy, PartialEq)]
-pub enum InsKind { Cell, CellAtFound, AtEnd }
+pub enum InsKind { At, AtEnd, CellFindSpec }
 
-/// insert_cell / insert_cell_at(find_key position) / insert_at_end(key assumed greatest) from any valid leaf of the shape.
-fn step_insert<const N: usize>(kind: InsKind, kl: [usize; N], vl: [usize; N], nk: usize, nv: usize, top: usize, slack: usize) {
+/// One insert from ANY valid leaf of the shape, with the new key constrained to sort at slot position `c`:
+///  * At:           `insert_cell_at(key, value, c)`  (BTree::insert_if_not_exists after its find_key)
+///  * AtEnd:        `insert_at_end(key, value)`      (append path; c must be N)
+///  * CellFindSpec: `insert_cell(key, value)` with `find_key_simd` replaced by its specification, which answers
+///                  NotFound(c) — see common::stub_find_key_simd; `dup=true` makes it answer Found(c) for a key equal
+///                  to entry c (the duplicate must be refused).
+fn step_insert<const N: usize>(kind: InsKind, kl: [usize; N], vl: [usize; N], nk: usize, nv: usize, c: usize, dup: bool, top: usize, slack: usize) -> bool {
     let mut page = [0u8; PAGE_SIZE];
     let (mut k, fe) = any_leaf::<N>(&mut page, kl, vl, top, slack, 0, 0);
-    { let (c, _) = decode_leaf(&page, &k, N); assert!(c == 0, "role=prestate_is_valid"); }
+    { let (code, _) = decode_leaf(&page, &k, N); assert!(code == 0, "role=prestate_is_valid"); }
     let before = head_snapshot(&page, N);
     let e = Ent::any(nk, nv);
     let free = fe - (CONTENT + N * SLOT);
     let fits = free >= e.cell_size() + SLOT;
-    let dup = key_present(&k, e.key());
-    if kind == InsKind::AtEnd && N > 0 { kani::assume(pg::lex_lt(k.e[N - 1].key(), e.key())); }
-    let r = {
-        let mut leaf = match LeafNodeMut::from_page(&mut page) { Ok(l) => l, Err(_) => { assert!(false, "role=from_page_ok"); return; } };
-        core::mem::ManuallyDrop::new(match kind {
-            InsKind::Cell => leaf.insert_cell(e.key(), e.val()),
+    if dup { kani::assume(crate::common::lex_cmp(k.e[c].key(), e.key()) == Ordering::Equal); }
+    else {
+        if c > 0 { kani::assume(pg::lex_lt(k.e[c - 1].key(), e.key())); }
+        if c < N { kani::assume(pg::lex_lt(e.key(), k.e[c].key())); }
+    }
+    unsafe { crate::common::FIND_FOUND = dup; crate::common::FIND_POS = c; }
+    let ok = {
+        let mut leaf = match LeafNodeMut::from_page(&mut page) { Ok(l) => l, Err(_) => { assert!(false, "role=from_page_ok"); return false; } };
+        let r = core::mem::ManuallyDrop::new(match kind {
+            InsKind::At => leaf.insert_cell_at(e.key(), e.val(), c),
             InsKind::AtEnd => leaf.insert_at_end(e.key(), e.val()),
-            InsKind::CellAtFound => match leaf.find_key(e.key()) {
-                SearchResult::NotFound(pos) => leaf.insert_cell_at(e.key(), e.val(), pos),
-                SearchResult::Found(_) => { assert!(dup, "role=find_reports_found_only_for_present_key"); return; }
-            },
-        })
+            InsKind::CellFindSpec => leaf.insert_cell(e.key(), e.val()),
+        });
+        r.is_ok()
     };
-    kani::cover!(r.is_ok(), "w:insert_succeeds");
-    kani::cover!(r.is_ok() && N > 0 && pg::lex_lt(e.key(), k.e[0].key()), "w:insert_before_first");
-    if r.is_ok() {
+    if ok {
         assert!(fits, "role=insert_succeeds_only_if_it_fits");
         assert!(!dup, "role=duplicate_key_rejected");
         k.push(e, fe - e.cell_size());
         let (code, which) = decode_leaf(&page, &k, N + 1);
         assert_leaf_ok!(code);
         assert!(cells_intact(&page, &k), "role=c28_cell_bytes_intact_after_insert");
-        let mut c = 0; while c <= N { assert!(contains(&which, N + 1, c), "role=c28_insert_keeps_every_entry_and_adds_the_new_one"); c += 1; }
+        let mut x = 0; while x <= N { assert!(contains(&which, N + 1, x), "role=c28_insert_keeps_every_entry_and_adds_the_new_one"); x += 1; }
         assert!(pg::get16(&page, 6) as usize == fe - e.cell_size(), "role=c29_free_end_moves_by_cell_size");
     } else {
         assert!(!fits || dup, "role=insert_fails_only_when_full_or_duplicate");
@@ -184,7 +189,148 @@ fn step_insert<const N: usize>(kind: InsKind, kl: [usize; N], vl: [usize; N], nk
         assert!(snap_eq(&after, &before), "role=failed_insert_leaves_header_and_slots_unchanged");
         assert!(cells_intact(&page, &k), "role=failed_insert_leaves_cells_unchanged");
     }
+    ok
 }
 
-// @vt prop=C28 tier=quick feat=sp fs=600 bound="insert_cell into ANY valid leaf of shape keys(2,5,3)/values(1,2,0) bytes (arbitrary bytes), new key 4 bytes / value 2 bytes (arbitrary), ample free space" outside="other shapes (sibling harnesses); values > 240 bytes" timeout=900 mem=16
-vt_proof! { unwind = 10; fn c28_leaf_insert_3cells_k4() { step_insert::<3>(InsKind::Cell, [2, 5, 3], [1, 2, 0], 4, 2, PAGE_SIZE, 0); }}
+/// delete_cell(i) from ANY valid leaf of the shape.
+fn step_delete<const N: usize>(kl: [usize; N], vl: [usize; N], i: usize, frag: u8) {
+    let mut page = [0u8; PAGE_SIZE];
+    let (k, fe) = any_leaf::<N>(&mut page, kl, vl, PAGE_SIZE, 0, 9, frag);
+    let r = {
+        let mut leaf = match LeafNodeMut::from_page(&mut page) { Ok(l) => l, Err(_) => { assert!(false, "role=from_page_ok"); return; } };
+        core::mem::ManuallyDrop::new(leaf.delete_cell(i))
+    };
+    if i >= N { assert!(r.is_err(), "role=delete_out_of_range_is_error"); let (c, _) = decode_leaf(&page, &k, N); assert!(c == 0, "role=failed_delete_leaves_page_valid"); return; }
+    assert!(r.is_ok(), "role=delete_in_range_succeeds");
+    let (code, which) = decode_leaf(&page, &k, N - 1);
+    assert_leaf_ok!(code);
+    assert!(cells_intact(&page, &k), "role=c28_other_cells_intact_after_delete");
+    let mut c = 0;
+    while c < N {
+        if c == i { assert!(!contains(&which, N - 1, c), "role=c28_deleted_entry_is_gone"); }
+        else { assert!(contains(&which, N - 1, c), "role=c28_delete_keeps_every_other_entry"); }
+        c += 1;
+    }
+    assert!(pg::get16(&page, 6) as usize <= fe || pg::get16(&page, 6) as usize <= PAGE_SIZE, "role=c29_free_end_sane_after_delete");
+    let leaf = core::mem::ManuallyDrop::new(LeafNode::from_page(&page));
+    if let Ok(l) = &*leaf { assert!(l.next_leaf() == 9, "role=c29_delete_keeps_leaf_chain_pointer"); }
+    kani::cover!(true, "w:delete_reached_end");
+}
+
+/// update_cell_value_in_place(i, v) / update_cell_value_shrink(i, v) on ANY valid leaf of the shape.
+fn step_update<const N: usize>(kl: [usize; N], vl: [usize; N], i: usize, new_vl: usize) {
+    let mut page = [0u8; PAGE_SIZE];
+    let (mut k, _fe) = any_leaf::<N>(&mut page, kl, vl, PAGE_SIZE, 0, 0, 0);
+    let nv: [u8; 4] = kani::any();
+    let old_vl = vl[i];
+    let r = {
+        let mut leaf = match LeafNodeMut::from_page(&mut page) { Ok(l) => l, Err(_) => { assert!(false, "role=from_page_ok"); return; } };
+        core::mem::ManuallyDrop::new(if new_vl == old_vl { leaf.update_cell_value_in_place(i, &nv[..new_vl]) } else { leaf.update_cell_value_shrink(i, &nv[..new_vl]) })
+    };
+    assert!(r.is_ok() == (new_vl <= old_vl), "role=update_accepts_exactly_equal_or_smaller_values");
+    if r.is_ok() { k.e[i].v = nv; k.e[i].vl = new_vl; }
+    let (code, which) = decode_leaf(&page, &k, N);
+    assert_leaf_ok!(code);
+    assert!(cells_intact(&page, &k), "role=c28_update_changes_exactly_that_value");
+    let mut c = 0; while c < N { assert!(contains(&which, N, c), "role=c28_update_keeps_every_entry"); c += 1; }
+    // read back through the real accessor, as BTree::get does
+    let leaf = core::mem::ManuallyDrop::new(LeafNode::from_page(&page));
+    if let Ok(l) = &*leaf {
+        let v = core::mem::ManuallyDrop::new(l.value_at(i));
+        match &*v { Ok(v) => assert!(crate::common::lex_cmp(v, k.e[i].val()) == Ordering::Equal, "role=c28_get_returns_last_written_value"), Err(_) => assert!(false, "role=value_at_ok") }
+    }
+    kani::cover!(r.is_ok(), "w:update_applied");
+}
+
+// ---- shapes: (key lengths) / (value lengths); keys shorter than, equal to and longer than the 4-byte slot prefix
+// @vt prop=C28 tier=quick feat=sp fs=600 bound="insert_cell_at(pos) into ANY valid leaf of shape keys(2,5,3)/values(1,2,0) (arbitrary bytes), new key 4 / value 2 bytes sorting at each position 0..=3" outside="other shapes; values > 240 bytes" timeout=900 mem=16
+vt_proof_pg! { unwind = 10; fn c28_leaf_insert_at_3cells() {
+    let r0 = step_insert::<3>(InsKind::At, [2, 5, 3], [1, 2, 0], 4, 2, 0, false, PAGE_SIZE, 0); let r1 = step_insert::<3>(InsKind::At, [2, 5, 3], [1, 2, 0], 4, 2, 1, false, PAGE_SIZE, 0);
+    let r2 = step_insert::<3>(InsKind::At, [2, 5, 3], [1, 2, 0], 4, 2, 2, false, PAGE_SIZE, 0); let r3 = step_insert::<3>(InsKind::At, [2, 5, 3], [1, 2, 0], 4, 2, 3, false, PAGE_SIZE, 0);
+    kani::cover!(r0, "w:insert_succeeds");
+}}
+// @vt prop=C28 tier=quick feat=sp fs=600 bound="insert_cell_at: shapes keys(4,4)/values(1,1) with 3 dead bytes below the cells, new key 2 / value 0 at positions 0..=2; empty leaf; exact fit and one byte short" outside="other shapes" timeout=900 mem=16
+vt_proof_pg! { unwind = 10; fn c28_leaf_insert_at_small_and_full() {
+    let r0 = step_insert::<2>(InsKind::At, [4, 4], [1, 1], 2, 0, 0, false, PAGE_SIZE, 3); let r1 = step_insert::<2>(InsKind::At, [4, 4], [1, 1], 2, 0, 1, false, PAGE_SIZE, 3);
+    let r2 = step_insert::<2>(InsKind::At, [4, 4], [1, 1], 2, 0, 2, false, PAGE_SIZE, 3);
+    let r3 = step_insert::<0>(InsKind::At, [], [], 5, 1, 0, false, PAGE_SIZE, 0);
+    // free = fe - (24 + 2*8); cells take 2*5 = 10 bytes below `top`; need = 7 + 8 = 15
+    let r4 = step_insert::<2>(InsKind::At, [3, 3], [1, 1], 4, 2, 1, false, 24 + 16 + 10 + 15, 0);
+    let r5 = step_insert::<2>(InsKind::At, [3, 3], [1, 1], 4, 2, 1, false, 24 + 16 + 10 + 14, 0);
+    kani::cover!(r0, "w:insert_succeeds"); kani::cover!(!r5, "w:insert_refused");
+}}
+// @vt prop=C28 tier=quick feat=sp fs=600 bound="insert_cell (find_key replaced by its specification) into ANY valid leaf of shape keys(2,5,3)/values(1,2,0), new key 4 / value 2 at positions 0..=3, and a duplicate of entry 1 (must be refused); exact fit / one byte short" outside="other shapes; the real find_key_simd (decided against the same specification under C30)" timeout=900 mem=16
+vt_proof_pg_findspec! { unwind = 10; fn c28_leaf_insert_cell_findspec() {
+    let r0 = step_insert::<3>(InsKind::CellFindSpec, [2, 5, 3], [1, 2, 0], 4, 2, 0, false, PAGE_SIZE, 0); let r1 = step_insert::<3>(InsKind::CellFindSpec, [2, 5, 3], [1, 2, 0], 4, 2, 2, false, PAGE_SIZE, 0);
+    let r2 = step_insert::<3>(InsKind::CellFindSpec, [2, 5, 3], [1, 2, 0], 4, 2, 3, false, PAGE_SIZE, 0);
+    let r3 = step_insert::<3>(InsKind::CellFindSpec, [2, 5, 3], [1, 2, 0], 5, 2, 1, true, PAGE_SIZE, 0);
+    let r4 = step_insert::<2>(InsKind::CellFindSpec, [3, 3], [1, 1], 4, 2, 1, false, 24 + 16 + 10 + 15, 0);
+    let r5 = step_insert::<2>(InsKind::CellFindSpec, [3, 3], [1, 1], 4, 2, 1, false, 24 + 16 + 10 + 14, 0);
+    kani::cover!(r0, "w:insert_succeeds"); kani::cover!(!r3, "w:insert_refused");
+}}
+// @vt prop=C28 tier=quick feat=sp fs=600 bound="insert_at_end (append path) into ANY valid leaf of shape keys(2,5,3)/values(1,2,0), new greatest key 3 / value 2; also exact fit / one byte short" outside="other shapes" timeout=900 mem=16
+vt_proof_pg! { unwind = 10; fn c28_leaf_append() {
+    let r0 = step_insert::<3>(InsKind::AtEnd, [2, 5, 3], [1, 2, 0], 3, 2, 3, false, PAGE_SIZE, 0);
+    let r1 = step_insert::<1>(InsKind::AtEnd, [4], [1], 3, 2, 1, false, 24 + 8 + 6 + 14, 0);
+    let r2 = step_insert::<1>(InsKind::AtEnd, [4], [1], 3, 2, 1, false, 24 + 8 + 6 + 13, 0);
+    kani::cover!(r0, "w:insert_succeeds"); kani::cover!(!r2, "w:insert_refused");
+}}
+// @vt prop=C28 tier=quick feat=sp fs=600 bound="delete_cell(i) for i in 0..=3 on ANY valid leaf of shape keys(2,5,3)/values(1,2,0), incl. out-of-range index; fragmentation counter 0 and 100 (below the compaction threshold of the 512-byte build)" outside="other shapes; compaction (reachable only in the small-page build: the u8 counter cannot exceed (16384-24)/4)" timeout=900 mem=16
+vt_proof_pg! { unwind = 10; fn c28_leaf_delete() {
+    step_delete::<3>([2, 5, 3], [1, 2, 0], 0, 0); step_delete::<3>([2, 5, 3], [1, 2, 0], 1, 100);
+    step_delete::<3>([2, 5, 3], [1, 2, 0], 2, 0); step_delete::<3>([2, 5, 3], [1, 2, 0], 3, 0);
+    step_delete::<1>([4], [2], 0, 0);
+}}
+// @vt prop=C28 tier=quick feat=sp fs=600 bound="update_cell_value_in_place / _shrink on ANY valid leaf of shape keys(2,5,3)/values(3,2,4): same size, shrink to 0..3, and growing (must be refused)" outside="other shapes; values > 240 bytes (varint width change: c28_leaf_shrink_across_varint_width)" timeout=900 mem=16
+vt_proof_pg! { unwind = 10; fn c28_leaf_update() {
+    step_update::<3>([2, 5, 3], [3, 2, 4], 0, 3); step_update::<3>([2, 5, 3], [3, 2, 4], 1, 1);
+    step_update::<3>([2, 5, 3], [3, 2, 4], 2, 0); step_update::<3>([2, 5, 3], [3, 2, 4], 1, 3);
+}}
+
+// @vt prop=C28 tier=quick feat=sp fs=600 bound="update_cell_value_shrink across the varint width boundary: a leaf with one cell whose value is 241 bytes (2-byte length varint) shrunk to 240 / 100 / 0 bytes (1-byte varint); first, second and last value bytes symbolic, the rest a concrete filler" outside="the 2287/2288 boundary (does not fit a 512-byte page); fully symbolic 240-byte values" timeout=900 mem=16
+vt_proof_pg! { unwind = 10; fn c28_leaf_shrink_across_varint_width() {
+    let new_len: usize = kani::any();
+    kani::assume(new_len == 240 || new_len == 100 || new_len == 0);
+    if new_len == 240 { shrink_wide(240) } else if new_len == 100 { shrink_wide(100) } else { shrink_wide(0) }
+}}
+fn shrink_wide(new_len: usize) {
+    let mut page = [0u8; PAGE_SIZE];
+    let key: [u8; 2] = kani::any();
+    let off = PAGE_SIZE - (2 + 2 + 241);
+    page[0] = pg::T_LEAF; pg::put16(&mut page, 2, 1); pg::put16(&mut page, 4, (CONTENT + SLOT) as u16); pg::put16(&mut page, 6, off as u16);
+    page[off] = key[0]; page[off + 1] = key[1];
+    page[off + 2] = 241; page[off + 3] = 1; // varint(241) = [241, 1] per the documented format
+    page[off + 4] = kani::any(); page[off + 4 + 240] = kani::any();
+    page[CONTENT] = key[0]; page[CONTENT + 1] = key[1];
+    pg::put16(&mut page, CONTENT + 4, off as u16); pg::put16(&mut page, CONTENT + 6, 2);
+    let mut nv = [0x5Au8; 240];
+    let (b0, b1, bl): (u8, u8, u8) = (kani::any(), kani::any(), kani::any());
+    if new_len > 1 { nv[0] = b0; nv[1] = b1; nv[new_len - 1] = bl; }
+    {
+        let leaf = core::mem::ManuallyDrop::new(LeafNode::from_page(&page));
+        if let Ok(l) = &*leaf { let v = core::mem::ManuallyDrop::new(l.value_at(0)); assert!(matches!(&*v, Ok(x) if x.len() == 241), "role=prestate_is_valid"); }
+    }
+    let ok = {
+        let mut leaf = match LeafNodeMut::from_page(&mut page) { Ok(l) => l, Err(_) => { assert!(false, "role=from_page_ok"); return; } };
+        let r = core::mem::ManuallyDrop::new(leaf.update_cell_value_shrink(0, &nv[..new_len]));
+        r.is_ok()
+    };
+    assert!(ok, "role=shrink_accepted");
+    let leaf = core::mem::ManuallyDrop::new(LeafNode::from_page(&page));
+    if let Ok(l) = &*leaf {
+        let k = core::mem::ManuallyDrop::new(l.key_at(0));
+        assert!(matches!(&*k, Ok(x) if x.len() == 2 && x[0] == key[0] && x[1] == key[1]), "role=c28_shrink_keeps_key");
+        let v = core::mem::ManuallyDrop::new(l.value_at(0));
+        match &*v {
+            Ok(x) => {
+                assert!(x.len() == new_len, "role=c28_shrink_value_length");
+                if new_len > 1 {
+                    assert!(x[0] == nv[0] && x[1] == nv[1], "role=c28_get_returns_last_written_value");
+                    assert!(x[new_len - 1] == nv[new_len - 1] && x[new_len / 2] == 0x5A, "role=c28_get_returns_last_written_value");
+                }
+            }
+            Err(_) => assert!(false, "role=value_at_ok"),
+        }
+    }
+    kani::cover!(new_len == 240, "w:one_byte_shorter_crosses_varint_width");
+}
